@@ -80,6 +80,8 @@ def _safe_call(c: ast.Call) -> bool:
         name = ast.unparse(c.func)
     except Exception:  # pragma: no cover
         return False
+    if isinstance(c.func, ast.Attribute) and c.func.attr in ("set", "is_set", "locked", "done", "cancel", "cancelled") and not c.args and not c.keywords:
+        return True  # asyncio.Event/Lock/Task accessors
     if name in ("str", "list", "set", "dict", "tuple", "bool") and c.args:
         return False  # conversions of arbitrary values may raise
     return name in SAFE_CALLS
@@ -112,6 +114,19 @@ def may_raise(node: ast.AST | None) -> bool:
             if not (isinstance(n.left, (ast.Constant, ast.JoinedStr)) and isinstance(n.op, ast.Mod)):
                 return True
     return False
+
+
+def _quiet_exit(w: ast.AST) -> bool:
+    """Context managers whose __aexit__ cannot raise after a body that completed normally:
+    asyncio.timeout (only converts a cancellation it caused itself) and asyncio locks."""
+    for it in w.items:
+        t = norm(it.context_expr)
+        if t.startswith("asyncio.timeout(") or t.startswith("asyncio.timeout_at("):
+            continue
+        if t.endswith("_lock") or t.endswith(".lock_folder()") or t.endswith("_lock.read_lock()") or t.endswith("_lock.write_lock()"):
+            continue
+        return False
+    return True
 
 
 class _Frame:
@@ -370,7 +385,10 @@ class CFG:
             if isinstance(s, ast.AsyncWith):
                 self.nodes[ent].awaits = True
             self._link(preds, ent)
-            self._exc_edge(ent)
+            if not _quiet_exit(s):
+                # entering asyncio.timeout()/a lock raises only on cancellation while waiting for the lock,
+                # which (like cancellation inside a finally) is outside what the rules quantify over
+                self._exc_edge(ent)
             fr = _WithFrame(s)
             self._frames.append(fr)
             ends = self._block(s.body, [ent])
@@ -379,7 +397,7 @@ class CFG:
                 return []
             wx = self._new("with_exit", s, text="exit " + head(s))
             self._link(ends, wx)
-            if isinstance(s, ast.AsyncWith):
+            if isinstance(s, ast.AsyncWith) and not _quiet_exit(s):
                 self._exc_edge(wx)
             return [wx]
         if isinstance(s, (ast.Try, getattr(ast, "TryStar", ast.Try))):
